@@ -204,8 +204,164 @@ class _Fold(ast.NodeTransformer):
     visit_AsyncFunctionDef = visit_FunctionDef
 
 
+def _pure(e: ast.AST) -> bool:
+    if isinstance(e, (ast.Name, ast.Constant)):
+        return True
+    if isinstance(e, ast.Attribute):
+        return _pure(e.value)
+    if isinstance(e, (ast.Tuple, ast.List)):
+        return all(_pure(x) for x in e.elts)
+    return False
+
+
+class _ConstMethods(ast.NodeTransformer):
+    """`self.m()` where m is a method of the same class whose whole body is `return <display of pure expressions>` (no
+    parameters but self): the call is replaced by that display (table-returning helpers: dispatch tables, lists of registries)."""
+    def __init__(self):
+        self.inlined = 0
+
+    def visit_ClassDef(self, node: ast.ClassDef):
+        self.generic_visit(node)
+        consts: Dict[str, ast.AST] = {}
+        for st in node.body:
+            if isinstance(st, ast.FunctionDef) and not st.decorator_list and len(st.args.args) == 1 and not (st.args.vararg or st.args.kwarg or st.args.kwonlyargs or st.args.posonlyargs):
+                body = [b for b in st.body if not (isinstance(b, ast.Expr) and isinstance(b.value, ast.Constant))]
+                if len(body) == 1 and isinstance(body[0], ast.Return) and isinstance(body[0].value, (ast.Tuple, ast.List)) and body[0].value.elts and _pure(body[0].value):
+                    names = {x.id for x in ast.walk(body[0].value) if isinstance(x, ast.Name)}
+                    if names <= {st.args.args[0].arg} | {n for n in names if n != st.args.args[0].arg and not n.startswith("__")}:
+                        consts[st.name] = (st.args.args[0].arg, body[0].value)
+        if not consts:
+            return node
+        import copy
+        outer = self
+
+        class Repl(ast.NodeTransformer):
+            def __init__(self, selfname):
+                self.selfname = selfname
+
+            def visit_Call(self, c: ast.Call):
+                self.generic_visit(c)
+                if isinstance(c.func, ast.Attribute) and isinstance(c.func.value, ast.Name) and c.func.value.id == self.selfname and c.func.attr in consts \
+                        and not c.args and not c.keywords:
+                    pself, disp = consts[c.func.attr]
+                    new = copy.deepcopy(disp)
+                    if pself != self.selfname:
+                        for x in ast.walk(new):
+                            if isinstance(x, ast.Name) and x.id == pself:
+                                x.id = self.selfname
+                    outer.inlined += 1
+                    return ast.copy_location(new, c)
+                return c
+
+        for st in node.body:
+            if isinstance(st, _FUNCS) and st.args.args and st.name not in consts:
+                Repl(st.args.args[0].arg).visit(st)
+        return node
+
+
+class _Unroll(ast.NodeTransformer):
+    """`for a, b in ((x1, y1), (x2, y2)): BODY` (short display of pure elements, no break/continue/else, the loop variables
+    not re-bound, not captured by a closure and not read after the loop) is written out: BODY[x1, y1]; BODY[x2, y2]."""
+    def __init__(self):
+        self.unrolled = 0
+
+    def _fn(self, fn):
+        self.generic_visit(fn)
+
+        def names_of(tg):
+            if isinstance(tg, ast.Name):
+                return [tg.id]
+            if isinstance(tg, (ast.Tuple, ast.List)) and all(isinstance(x, ast.Name) for x in tg.elts):
+                return [x.id for x in tg.elts]
+            return None
+
+        def try_unroll(st: ast.For) -> Optional[List[ast.stmt]]:
+            import copy
+            it = st.iter
+            if st.orelse or not isinstance(it, (ast.Tuple, ast.List)) or not 1 <= len(it.elts) <= 4 or not all(_pure(x) for x in it.elts) \
+                    or any(isinstance(x, ast.Starred) for x in it.elts):
+                return None
+            names = names_of(st.target)
+            if names is None:
+                return None
+            if isinstance(st.target, (ast.Tuple, ast.List)) and not all(isinstance(x, (ast.Tuple, ast.List)) and len(x.elts) == len(names) for x in it.elts):
+                return None
+
+            def own(nodes):
+                stack = list(nodes)
+                while stack:
+                    n = stack.pop()
+                    yield n
+                    if isinstance(n, (ast.For, ast.AsyncFor, ast.While)) and n is not st:
+                        # break / continue inside belong to that inner loop - but keep walking for names
+                        for x in ast.walk(n):
+                            if not isinstance(x, (ast.Break, ast.Continue)):
+                                yield x
+                        continue
+                    stack.extend(ast.iter_child_nodes(n))
+
+            for x in own(st.body):
+                if isinstance(x, (ast.Break, ast.Continue)):
+                    return None
+                if isinstance(x, ast.Name) and x.id in names and not isinstance(x.ctx, ast.Load):
+                    return None
+                if isinstance(x, _FUNCS + (ast.Lambda, ast.ClassDef, ast.GeneratorExp, ast.ListComp, ast.SetComp, ast.DictComp)) and \
+                        any(isinstance(y, ast.Name) and y.id in names for y in ast.walk(x)):
+                    return None
+            for x in ast.walk(fn):
+                if isinstance(x, ast.Name) and x.id in names and not any(x is y for y in ast.walk(st)):
+                    return None
+            out: List[ast.stmt] = []
+            for el in it.elts:
+                mapping = {names[0]: el} if isinstance(st.target, ast.Name) else {n: e for n, e in zip(names, el.elts)}
+
+                class Sub(ast.NodeTransformer):
+                    def visit_Name(self, node: ast.Name):
+                        if isinstance(node.ctx, ast.Load) and node.id in mapping:
+                            return ast.copy_location(copy.deepcopy(mapping[node.id]), node)
+                        return node
+                for b in st.body:
+                    nb = Sub().visit(copy.deepcopy(b))
+                    ast.fix_missing_locations(nb)
+                    out.append(nb)
+            return out
+
+        def walk(node):
+            for fld in ("body", "orelse", "finalbody"):
+                b = getattr(node, fld, None)
+                if isinstance(b, list) and b and isinstance(b[0], ast.stmt):
+                    new: List[ast.stmt] = []
+                    for st in b:
+                        if not isinstance(st, _FUNCS + (ast.ClassDef,)):
+                            walk(st)
+                        rep_ = try_unroll(st) if isinstance(st, ast.For) else None
+                        if rep_ is not None:
+                            self.unrolled += 1
+                            new += rep_
+                        else:
+                            new.append(st)
+                    setattr(node, fld, new)
+            for h in getattr(node, "handlers", []) or []:
+                walk(h)
+
+        walk(fn)
+        return fn
+
+    visit_FunctionDef = _fn
+    visit_AsyncFunctionDef = _fn
+
+
 def normalise(tree: ast.Module) -> ast.Module:
+    cm = _ConstMethods()
+    cm.visit(tree)
     f = _Fold()
-    f.visit(tree)
-    tree._tpsa_folded = f.folded  # type: ignore[attr-defined]
+    f.visit(tree)  # (`table = (...)` followed by `for row in table:` becomes a loop over the display)
+    u = _Unroll()
+    u.visit(tree)
+    f2 = _Fold()
+    f2.visit(tree)
+    ast.fix_missing_locations(tree)
+    tree._tpsa_folded = f.folded + f2.folded  # type: ignore[attr-defined]
+    tree._tpsa_unrolled = u.unrolled  # type: ignore[attr-defined]
+    tree._tpsa_const_methods = cm.inlined  # type: ignore[attr-defined]
     return tree
